@@ -1,7 +1,7 @@
 ------------------------------- MODULE MCwrap -------------------------------
 EXTENDS WrapSpec
 MCNames == {"a", "b"}
-MCNameOrder == <<"a", "b", "c">>
+MCNameOrder == <<"B", "a", "b", "c", "d", "e", "f", "l1", "l2", "s", "t", "u", "w", "zz">>
 MCBuildLen == IF "VERIF_BUILDLEN" \in DOMAIN IOEnv THEN atoi(IOEnv.VERIF_BUILDLEN) ELSE 2
 MCWrapLen == IF "VERIF_WRAPLEN" \in DOMAIN IOEnv THEN atoi(IOEnv.VERIF_WRAPLEN) ELSE 2
 MCKind == IF "VERIF_KIND" \in DOMAIN IOEnv THEN IOEnv.VERIF_KIND ELSE "rofs"
